@@ -23,9 +23,24 @@ open VaxisModel.Model.ParserRunSk VaxisModel.Model.ParserReaderSk
     `time.AfterFunc`.  No statement outside the vocabulary. -/
 theorem run_skeleton_recognised :
     Gen.ParserRun.runShapeOk = true ∧ Gen.ParserRun.runClose = handRunClose ∧
-    Gen.ParserRun.runDefault = handRunDefault ∧ Gen.ParserRun.runTail = handRunTail ∧
-    Gen.ParserRun.timerCallback.filter (fun s => s ≠ .yield0 ∧ s ≠ .deferYield1) = handCallback ∧
+    Gen.ParserRun.runDefault.filter (! ·.isYield) = handRunDefault ∧
+    Gen.ParserRun.runTail.filter (! ·.isYield) = handRunTail ∧
+    Gen.ParserRun.runLoopHead.filter (! ·.isYield) = [] ∧
+    Gen.ParserRun.timerCallback.filter (! ·.isYield) = handCallback ∧
     Gen.ParserRun.timerCapturesGen = true ∧ Gen.ParserRun.unrecognised = [] := by decide
+
+/-- **The yield points of the forced-schedule harness stand where `Model/ParserRunSched.lean` says**
+    (round 4): `verifSched(p, n)` in front of the `select` (10), `Lock` (11), `escGen++` (12),
+    `anywhere` (13), the `Unlock`s of the loop (14); after the loop in front of `Stop` (20), `Lock` (21),
+    `escGen++` (22), `Unlock` (23), `emit(EOF{})` (24), `close` (25) and when `run` returns (29); in the
+    callback in front of `Lock` (30), the generation check (31), `emit` (32), `state = ground` (33),
+    `ignoreST = false` (34) and — deferred, registered before the deferred `Unlock`, hence after it —
+    when it returns (39).  So a goroutine parked at point `n` is exactly at the program counter the
+    replay (`Driver/C08Sched.lean`) gives it, and "between point 12 and the `Unlock`" is "holds the
+    mutex". -/
+theorem yield_points_in_front_of_statements :
+    Gen.ParserRun.runLoopHead = handRunLoopHeadY ∧ Gen.ParserRun.runDefault = handRunDefaultY ∧
+    Gen.ParserRun.runTail = handRunTailY ∧ Gen.ParserRun.timerCallback = handCallbackY := by decide
 
 /-! ### the model's program counters, in the order it walks them -/
 
@@ -107,12 +122,17 @@ def flattenRun (readRuneBody : List RStmt) : List RunStmt → List MainAt
   | .callReadRune :: rest =>
     (readRuneBody.filter fun s => s = .readRune ∨ s = .stopTimer).map .inReadRune ++ flattenRun readRuneBody rest
   | .ifNilUnlockBreak :: rest => flattenRun readRuneBody rest
+  | .yield _ :: rest => flattenRun readRuneBody rest
+  | .deferYield _ :: rest => flattenRun readRuneBody rest
   | s :: rest => .run s :: flattenRun readRuneBody rest
 
 /-- Deferred calls run at return, last registered first. -/
+def isDefer : CbStmt → Bool
+  | .deferUnlock | .deferYield1 | .deferYield _ => true
+  | _ => false
+
 def execOrder (body : List CbStmt) : List CbStmt :=
-  body.filter (fun s => s ≠ .deferUnlock ∧ s ≠ .deferYield1) ++
-  (body.filter (fun s => s = .deferUnlock ∨ s = .deferYield1)).reverse
+  body.filter (! isDefer ·) ++ (body.filter isDefer).reverse
 
 /-- **The model's order is the source's order.**  The program counters of one loop iteration stand,
     in order, in front of the statements of the default arm of `run` as regenerated on this run (with
@@ -125,14 +145,16 @@ def execOrder (body : List CbStmt) : List CbStmt :=
     generation bump, or the check behind the `emit` in the source breaks this theorem. -/
 theorem model_order_is_source_order (i : Inp) (b v : Bool) :
     (loopPcs i b).map mainAt = flattenRun Gen.ParserReader.readRuneBody Gen.ParserRun.runDefault ∧
-    (tailPcs v).map mainAt = (Gen.ParserRun.runTail.filter (· ≠ .signalClosed)).map .run ++ [.returned] ∧
-    Gen.ParserRun.runTail.getLast? = some .signalClosed ∧
+    (tailPcs v).map mainAt = (Gen.ParserRun.runTail.filter (fun s => !s.isYield ∧ s ≠ .signalClosed)).map .run ++ [.returned] ∧
+    (Gen.ParserRun.runTail.filter (! ·.isYield)).getLast? = some .signalClosed ∧
+    (execOrder Gen.ParserRun.timerCallback).getLast? = some (.deferYield1) ∧
+    ((execOrder Gen.ParserRun.timerCallback).filter (fun s => s = .deferUnlock ∨ s = .deferYield 39)) = [.deferUnlock, .deferYield 39] ∧
     cbPassPcs.filterMap cbAt =
-      (execOrder Gen.ParserRun.timerCallback).filter (fun s => s ≠ .yield0 ∧ s ≠ .deferYield1) ∧
+      (execOrder Gen.ParserRun.timerCallback).filter (! ·.isYield) ∧
     cbFailPcs.filterMap cbAt = [.lock, .ifGenChangedReturn, .deferUnlock] ∧
-    ((execOrder Gen.ParserRun.timerCallback).filter (fun s => s ≠ .yield0 ∧ s ≠ .deferYield1)).take 2 =
+    ((execOrder Gen.ParserRun.timerCallback).filter (! ·.isYield)).take 2 =
       [.lock, .ifGenChangedReturn] := by
-  refine ⟨?_, by cases v <;> decide, by decide, by decide, by decide, by decide⟩
+  refine ⟨?_, by cases v <;> decide, by decide, by decide, by decide, by decide, by decide, by decide⟩
   simp only [loopPcs, List.map_cons, List.map_nil, mainAt]
   decide
 
